@@ -217,7 +217,8 @@ func scanFaultOracle(sc *scanCase) (ok bool, key, detail string) {
 			return true, "", ""
 		}
 		key := "C19-scanner-fault"
-		// the one known class (finding ROB-1): the refill during which the
+		// former finding ROB-1 (fixed upstream as D33; the class key is kept as a
+		// regression detector): the refill during which the
 		// reader failed after some bytes had been added (by this or an earlier Read of the same io.ReadFull) reports no error, so this
 		// PeekN hands out a shortened window with a nil error
 		if len(fp) == 3 && len(gp) == 3 && fp[0] == "p" && fp[2] == "ok" && fp[1] != gp[1] &&
@@ -400,6 +401,48 @@ func robScanRun(c *Ctx, faults bool) {
 			c.Sample(truncate(line) + " => " + truncate(strings.Join(res, ",")))
 		}
 	}
+}
+
+// robTokenSeqRun: EXHAUSTIVE short token sequences inside the two composite
+// contexts of the parser, read with ReadObject and compared with the model.
+// The random soups above rarely produce a particular order of a handful of
+// tokens (e.g. four integers followed by two "R"), but the state the array
+// and dictionary loops keep between tokens (integersSeen, the a-b-R
+// look-ahead) depends on exactly that; all sequences up to a small length
+// over {integer, R, other} cover every such state.
+func robTokenSeqRun(c *Ctx) {
+	alpha := []string{"1", "R", "/N"}
+	maxArr, maxDict := 8, 6
+	if c.Thorough {
+		alpha = []string{"1", "0", "R", "/N", "null"}
+		maxArr, maxDict = 7, 6
+	}
+	var emit func(prefix, suffix string, seq []string, left int)
+	emit = func(prefix, suffix string, seq []string, left int) {
+		data := []byte(prefix + strings.Join(seq, " ") + suffix)
+		sc := &scanCase{data: data, mode: 'n', ops: []string{"o"}}
+		res, hang := runScanOps(sc, 'n')
+		line := sc.line()
+		c.Emit(line, strings.Join(res, ","))
+		c.Case(line, len(seq) > 0)
+		for _, x := range res {
+			if strings.HasPrefix(x, "o:panic") {
+				c.Violate("scan", "C05-scanner-panic", "ReadObject panicked on "+string(data), line)
+			}
+		}
+		if hang {
+			c.Violate("scan", "C05-scanner-hang", "ReadObject did not return on "+string(data), line)
+		}
+		if left == 0 {
+			return
+		}
+		for _, a := range alpha {
+			emit(prefix, suffix, append(seq[:len(seq):len(seq)], a), left-1)
+		}
+	}
+	emit("[", "]", nil, maxArr)
+	emit("<</K ", ">>", nil, maxDict)
+	c.Stat("scan_token_sequences_exhaustive")
 }
 
 func sizeBucket(n int) string {
